@@ -4,6 +4,7 @@ import SV.Model.C01
 import SV.Model.C01Regex
 import SV.Model.C01Body
 import SV.Spec.C01
+import SV.Model.C01Prune
 open SV SV.Wire SV.Model.C01
 
 def decVariant (j : Json) : Except String Variant :=
@@ -142,6 +143,17 @@ def fuelOf (a : Json) : Nat := match a.getD "fuel" .null with | .num m 0 => m.to
 def handle : Handler := fun op a => do
   match op with
   | "valid" => SV.Spec.JsonSchema.handleValid a
+  | "prune" =>
+    -- {variant, required: [..], props: [{name, hasRef, singleComb}]} → per property "keep" | "never" | "absent"
+    let v ← (match ← asStr (← field a "variant") with
+      | "asFound" => pure SV.Model.C01Prune.Variant.asFound | "repaired" => pure SV.Model.C01Prune.Variant.repaired
+      | o => .error s!"variant {o}")
+    let required ← asList asStr (← field a "required")
+    let props ← asList (fun j => do
+      return (⟨← asStr (← field j "name"), ← asBool (← field j "hasRef"), ← asBool (← field j "singleComb")⟩ :
+        SV.Model.C01Prune.PropIn)) (← field a "props")
+    return .arr (props.map fun p => match SV.Model.C01Prune.cleanOne v required p with
+      | some .keep => Json.str "keep" | some .never => Json.str "never" | none => Json.str "absent")
   | "conv" =>
     -- {cfg, schema, fuel} → transform(schema, to_json_schema, …)
     let cfg ← decCfg (a.getD "cfg" (.obj []))
